@@ -278,10 +278,10 @@ Lemma lookup_put_other_type : forall r t d k, fst k <> t -> lookup (reg_put r t 
 Proof. intros r t d [t' n'] N. unfold lookup. cbn [fst snd] in *. rewrite reg_get_put_other; auto. Qed.
 
 (* ------------------------------------------------------------------ one step *)
-Lemma step_wf : forall w cf r l, wf r -> wf (o_reg (step w cf r l)).
+Lemma step_req_wf : forall w cf r q, wf r -> wf (o_reg (step_req w cf r q)).
 Proof.
-  intros w cf r l W. unfold step.
-  destruct (classify l) as [| | |t n|t n|t n|]; cbn [o_reg fst]; try exact W.
+  intros w cf r q W. unfold step_req.
+  destruct q as [| | |t n|t n|t n|]; cbn [o_reg fst]; try exact W.
   - destruct (W t) as [ND P]. apply wf_put; [exact W | |].
     + destruct (d_get (reg_get r t) n) eqn:G.
       * rewrite d_keys_set_present by congruence. exact ND.
@@ -297,3 +297,6 @@ Proof.
       apply wf_put; [exact W | apply d_keys_del_nodup; exact ND | apply pos_vals_del; exact P].
     + apply wf_put; [exact W | rewrite d_keys_set_present by congruence; exact ND | apply pos_vals_set; [exact P | lia]].
 Qed.
+
+Lemma step_wf : forall w cf r l, wf r -> wf (o_reg (step w cf r l)).
+Proof. intros. apply step_req_wf. assumption. Qed.
